@@ -998,6 +998,7 @@ class YAMLPath:
         """Stringify segments of a YAMLPath."""
         pathsep: str = str(separator)
         add_sep: bool = False
+        after_collector: bool = False
         ppath: str = ""
 
         # FSLASH separator requires a path starting with a /
@@ -1024,8 +1025,10 @@ class YAMLPath:
                         pathsep,
                         '(', ')', '[', ']', '^', '$', '%', ' ', "'", '"'
                     )
-                    if key_text.startswith("&"):
-                        # Not an ANCHOR mark
+                    if key_text.startswith("&") or (
+                        after_collector and key_text[:1] in ("+", "-")
+                    ):
+                        # Not an ANCHOR mark or a Collector operator
                         key_text = "\\" + key_text
                     elif (not ppath and key_text.startswith("/")
                           and separator is not PathSeparators.FSLASH):
@@ -1056,6 +1059,7 @@ class YAMLPath:
                 ppath += "**"
 
             add_sep = True
+            after_collector = segment_type == PathSegmentTypes.COLLECTOR
 
         return ppath
 
